@@ -61,6 +61,19 @@ def DICT(k, v):
 
 
 _sorts = {}
+_acc = {}     # type -> constructor / accessor functions (names are unique per datatype)
+
+
+class _S:
+    """view of a datatype through generic accessor names (mk, arr, len, isnone, val, has, f0..)"""
+
+    def __init__(s, t):
+        s.__dict__.update(_acc[t])
+
+
+def S(t):
+    sort(t)
+    return _S(t)
 _names = itertools.count()
 
 
@@ -82,26 +95,34 @@ def sort(t):
         r = d.create()
     elif k == 'tup':
         ss = [sort(x) for x in t.a]
-        d = Datatype(f'Tup{next(_names)}')
-        d.declare('mk', *[(f'f{i}', x) for i, x in enumerate(ss)])
+        n = next(_names)
+        d = Datatype(f'Tup{n}')
+        d.declare(f'mkTup{n}', *[(f'f{i}_{n}', x) for i, x in enumerate(ss)])
         r = d.create()
+        _acc[t] = dict(mk=getattr(r, f'mkTup{n}'), **{f'f{i}': getattr(r, f'f{i}_{n}') for i in range(len(ss))})
     elif k == 'list':
         s0 = sort(t.a[0])
-        d = Datatype(f'List{next(_names)}')
-        d.declare('mk', ('arr', ArraySort(IntSort(), s0)), ('len', IntSort()))
+        n = next(_names)
+        d = Datatype(f'List{n}')
+        d.declare(f'mkList{n}', (f'arr{n}', ArraySort(IntSort(), s0)), (f'len{n}', IntSort()))
         r = d.create()
+        _acc[t] = dict(mk=getattr(r, f'mkList{n}'), arr=getattr(r, f'arr{n}'), len=getattr(r, f'len{n}'))
     elif k == 'opt':
         s0 = sort(t.a[0])
-        d = Datatype(f'Opt{next(_names)}')
-        d.declare('mk', ('isnone', BoolSort()), ('val', s0))
+        n = next(_names)
+        d = Datatype(f'Opt{n}')
+        d.declare(f'mkOpt{n}', (f'isnone{n}', BoolSort()), (f'val{n}', s0))
         r = d.create()
+        _acc[t] = dict(mk=getattr(r, f'mkOpt{n}'), isnone=getattr(r, f'isnone{n}'), val=getattr(r, f'val{n}'))
     elif k == 'arr':
         r = ArraySort(sort(t.a[0]), sort(t.a[1]))
     elif k == 'dict':
         ks, vs = sort(t.a[0]), sort(t.a[1])
-        d = Datatype(f'Dict{next(_names)}')
-        d.declare('mk', ('has', ArraySort(ks, BoolSort())), ('val', ArraySort(ks, vs)))
+        n = next(_names)
+        d = Datatype(f'Dict{n}')
+        d.declare(f'mkDict{n}', (f'has{n}', ArraySort(ks, BoolSort())), (f'dval{n}', ArraySort(ks, vs)))
         r = d.create()
+        _acc[t] = dict(mk=getattr(r, f'mkDict{n}'), has=getattr(r, f'has{n}'), val=getattr(r, f'dval{n}'))
     else:
         raise KeyError(t)
     _sorts[t] = r
@@ -121,36 +142,36 @@ def default(t):
     if k == 'trans':
         return sort(t).mkT(StringVal(""), RealVal(0), IntVal(0))
     if k == 'tup':
-        return sort(t).mk(*[default(x) for x in t.a])
+        return S(t).mk(*[default(x) for x in t.a])
     if k == 'list':
         return empty(t)
     if k == 'opt':
-        return sort(t).mk(BoolVal(True), default(t.a[0]))
+        return S(t).mk(BoolVal(True), default(t.a[0]))
     if k == 'arr':
         return K(sort(t.a[0]), default(t.a[1]))
     if k == 'dict':
-        return sort(t).mk(K(sort(t.a[0]), BoolVal(False)), K(sort(t.a[0]), default(t.a[1])))
+        return S(t).mk(K(sort(t.a[0]), BoolVal(False)), K(sort(t.a[0]), default(t.a[1])))
     raise KeyError(t)
 
 
 def empty(t):
-    return sort(t).mk(K(IntSort(), default(t.a[0])), IntVal(0))
+    return S(t).mk(K(IntSort(), default(t.a[0])), IntVal(0))
 
 
 def L_arr(v, t):
-    return sort(t).arr(v)
+    return S(t).arr(v)
 
 
 def L_len(v, t):
-    return sort(t).len(v)
+    return S(t).len(v)
 
 
 def L_mk(t, arr, n):
-    return sort(t).mk(arr, n)
+    return S(t).mk(arr, n)
 
 
 def L_app(v, t, x):
-    return sort(t).mk(Store(L_arr(v, t), L_len(v, t), x), L_len(v, t) + 1)
+    return S(t).mk(Store(L_arr(v, t), L_len(v, t), x), L_len(v, t) + 1)
 
 
 def L_lit(t, xs):
@@ -161,11 +182,11 @@ def L_lit(t, xs):
 
 
 def tup_get(v, t, i):
-    return getattr(sort(t), f'f{i}')(v)
+    return getattr(S(t), f'f{i}')(v)
 
 
 def tup_mk(t, vs):
-    return sort(t).mk(*vs)
+    return S(t).mk(*vs)
 
 
 def trans_mk(lab=None, prob=None, tgt=None):
@@ -186,11 +207,11 @@ def t_tgt(v):
 
 
 def opt_none(t):
-    return sort(t).mk(BoolVal(True), default(t.a[0]))
+    return S(t).mk(BoolVal(True), default(t.a[0]))
 
 
 def opt_some(t, v):
-    return sort(t).mk(BoolVal(False), v)
+    return S(t).mk(BoolVal(False), v)
 
 
 _fresh = itertools.count()
